@@ -372,7 +372,10 @@ func (s *Store) instantiate(
 	for _, exp := range m.Exports {
 		if exp.Type == ExternTypeTable {
 			t := m.Tables[exp.Index]
+			// The table can be an imported one being re-exported, hence already shared with other modules.
+			t.involvingModuleInstancesMutex.Lock()
 			t.involvingModuleInstances = append(t.involvingModuleInstances, m)
+			t.involvingModuleInstancesMutex.Unlock()
 		}
 	}
 
